@@ -30,6 +30,8 @@ def run(model, res, tier):
     res.rule('R6', 'case / length / character functions delegate to the right string operation')
     res.rule('R7', 'no cache or shared state')
     res.rule('R8', '& and LEN/CONCATENATE agree on the text of a number (LEN(a&b) = LEN(a)+LEN(b) for numeric operands too)')
+    res.rule('R10', 'SUBSTITUTE with an instance number, when written on str.find()/str.split(): the scan starts at the beginning of the text '
+             'and advances by 1..len(old) from the previous hit; the text has one piece more than it has occurrences (instance numbers 1..3)')
     res.rule('R9', 'a position obtained from str.find()/rfind() is tested for "not found" before it is used as a slice bound or index')
     res.trusted += ['hxsa abstract interpreter with integer linear forms', 'CPython ast']
     em, singles = error_singletons(model)
@@ -46,6 +48,7 @@ def run(model, res, tier):
         keys.append((m.name, m.qualname_of(f)))
     region = c.cg.reachable(keys)
     _unchecked_positions(model, res, c, region)
+    H.safely(res, 'R10', 'SUBSTITUTE', _kth_occurrence, model, res)
     purity.check_region(res, c, 'R7', None, region, 'a text function')
     purity.check_memo(res, c, 'R7', region, 'a text function')
 
@@ -583,3 +586,90 @@ def _unchecked_positions(model, res, c, region):
                           'in between: -1 is a valid bound (one before the end), so the text is silently rewritten where it must come back '
                           'unchanged (no such occurrence)' % (v, src(a.value if hasattr(a, 'value') else a)[:60], src(u)[:60]), func=key[1])
     res.analysed['text functions using find()/rfind()'] = n
+
+
+# ---------------------------------------------------------------------------------------------------
+# R10: the k-th occurrence through find() / split()  (instance numbers 1..3, text / old / new symbolic)
+
+def _terms(v):
+    yield v
+    if isinstance(v, Atom):
+        for a in v.args:
+            for x in _terms(a):
+                yield x
+
+
+def _is_zero(v):
+    if isinstance(v, Const):
+        return v.value == 0 and not isinstance(v.value, bool)
+    return isinstance(v, Aff) and not v.coeffs and v.const == 0
+
+
+def _kth_occurrence(model, res):
+    m, f = model.registered('SUBSTITUTE')
+    where = m.where(f)
+    n = 0
+    for kk in (1, 2, 3):
+        outs = _runs(model, 'SUBSTITUTE', lambda: [Sym('str', 'T'), Sym('str', 'O'), Sym('str', 'N'), Const(kk)], flags={'len_as_variable': True})
+        for o in outs:
+            if o.imprecise or o.kind != 'return':
+                continue
+            finds = [t for t in _terms(o.value) if isinstance(t, Atom) and t.op in ('find', 'index') and len(t.args) >= 2
+                     and getattr(t.args[0], 'name', None) == 'T']
+            for t in finds:
+                n += 1
+                if len(t.args) == 2:
+                    continue            # no start offset: from the beginning
+                start = t.args[2]
+                inner = [x for x in _terms(start) if isinstance(x, Atom) and x.op in ('find', 'index') and x is not t]
+                if not inner:
+                    ok = _is_zero(start)
+                    res.ob('R10', 'SUBSTITUTE', {'k': kk, 'first search starts at': repr(start)}, ok)
+                    if not ok:
+                        res.violation('R10', 'function:SUBSTITUTE:scan-start', where,
+                                      'the scan for the occurrences starts at offset %r instead of 0: an occurrence at the very beginning of the '
+                                      'text is never counted (SUBSTITUTE("ab-ab","ab","#",1) leaves the first "ab" alone)' % (start,),
+                                      case={'k': kk}, func=f.name)
+                    continue
+                # next search: previous hit + step, 1 <= step <= len(old)
+                step = None
+                if isinstance(start, Atom) and start.op == 'add' and len(start.args) == 2:
+                    a, b = start.args
+                    if isinstance(b, Atom) and b.op in ('find', 'index'):
+                        a, b = b, a
+                    if isinstance(a, Atom) and a.op in ('find', 'index'):
+                        step = b
+                if step is None:
+                    res.ob('R10', 'SUBSTITUTE', {'k': kk, 'next search starts at': repr(start)[:80]}, True, 'undecided: not previous hit + step')
+                    continue
+                ok = (isinstance(step, Const) and step.value == 1 and not isinstance(step.value, bool)) or \
+                    (isinstance(step, Aff) and step.const == 0 and len(step.coeffs) == 1 and list(step.coeffs.values())[0] == 1
+                     and list(step.coeffs)[0].startswith('len(O'))
+                res.ob('R10', 'SUBSTITUTE', {'k': kk, 'next search advances by': repr(step)}, ok)
+                if not ok:
+                    res.violation('R10', 'function:SUBSTITUTE:scan-step', where,
+                                  'after a hit the scan continues at hit + %r; it must advance by at least 1 and at most len(old), otherwise it '
+                                  'finds the same occurrence again or jumps over one' % (step,), case={'k': kk}, func=f.name)
+            # split(): pieces = occurrences + 1, so the k-th occurrence exists only with at least k + 1 pieces
+            text = repr(o.value)
+            if 'split(T' in text and not (isinstance(o.value, Sym) and o.value.name == 'T'):
+                n += 1
+                box, multi = H.box_of(o.notes)
+                pieces = [v for v in box if v.startswith('len(split(T')]
+                lo = None
+                if pieces:
+                    e = box[pieces[0]]
+                    if e[0] is not None:
+                        import math
+                        lo = math.floor(e[0]) + 1 if e[1] or e[0] != math.floor(e[0]) else int(e[0])
+                        if e[1] and e[0] == math.floor(e[0]):
+                            lo = int(e[0]) + 1
+                ok = lo is not None and lo >= kk + 1
+                res.ob('R10', 'SUBSTITUTE', {'k': kk, 'pieces of text.split(old) on the replacing trace': '>= %s' % lo}, ok)
+                if not ok:
+                    res.violation('R10', 'function:SUBSTITUTE:split-count', where,
+                                  'for instance number %d the text is rebuilt around a replacement although the decisions of that trace only '
+                                  'establish %s pieces of text.split(old): k pieces are k - 1 occurrences, so with exactly %d pieces there is no '
+                                  '%d-th occurrence and the text must come back unchanged (the new text gets appended instead)'
+                                  % (kk, ('at least %d' % lo) if lo is not None else 'an unknown number of', kk, kk), case={'k': kk}, func=f.name)
+    res.analysed['SUBSTITUTE find()/split() terms examined'] = n
